@@ -1,7 +1,7 @@
 ------------------------------ MODULE Trace_C08 ------------------------------
 (* Trace validation for C08: verdict = ResponseCheck!Accepts(case); the bytes readable    *)
 (* from the response body after validation are the bytes supplied.                        *)
-EXTENDS ResponseCheck, FindingsC08, Json, CSV
+EXTENDS FindingsC08, Json, CSV
 
 Trace == ndJsonDeserialize("trace.ndjson")
 VARIABLE l
@@ -13,7 +13,7 @@ Failed(line) ==
    IF line.doc # "ok" THEN {"document_rejected"}
    ELSE (IF line.verdict \in {"panic", "crash", "hang"} THEN {"no_panic"} ELSE {})
         \cup (IF Accepts(line.c) /\ line.verdict # "ok" THEN {"conforming_response_accepted"} ELSE {})
-        \cup (IF ~Accepts(line.c) /\ line.verdict = "ok" THEN {"violating_response_rejected"} ELSE {})
+        \cup (IF Rejects(line.c) /\ line.verdict = "ok" THEN {"violating_response_rejected"} ELSE {})
         \cup (IF line.verdict \notin {"panic", "crash", "hang"} /\ line.after # line.sent THEN {"body_readable_afterwards"} ELSE {})
 
 LineOK(line) ==
